@@ -201,14 +201,77 @@ Section PST13HFacts.
         cbn [skipn]. rewrite <- (divide_at_point_exact nv r z betas Wr Vr). ring.
     - rewrite R2, C2, !co_el2, co_nil. ring.
   Qed.
-  Lemma ph_commit1_comm nv s betas p hiding has_rng blind cm st :
-    ph_commit1 nv s betas p hiding has_rng blind = Ok (cm, st) -> cm = comm_of betas (p, st).
+  Lemma ph_commit1_comm nv s betas p hiding rng cm st n :
+    ph_commit1 nv s betas p hiding rng = Ok (cm, st, n) -> cm = comm_of betas (p, st).
   Proof.
     unfold ph_commit1, comm_of. destruct (s <? mdeg p)%nat; [discriminate|]. destruct (negb (vars_ok nv p)); [discriminate|].
     destruct hiding as [hb|].
-    - destruct (negb has_rng); [discriminate|]. destruct (hb =? 0)%nat; [discriminate|]. destruct (s + 1 <=? hb)%nat; [discriminate|].
-      intros H. injection H as <- <-. reflexivity.
-    - intros H. injection H as <- <-. reflexivity.
+    - destruct rng as [tape|]; [|discriminate]. destruct (length tape <? _)%nat; [discriminate|].
+      destruct (hb =? 0)%nat; [discriminate|]. destruct (s + 1 <=? hb)%nat; [discriminate|].
+      intros H. injection H as <- <- <-. reflexivity.
+    - intros H. injection H as <- <- <-. reflexivity.
+  Qed.
+
+  (* the blinding polynomial of a hiding commitment: well formed, in the key's variables, with at least
+     hiding bound + 2 coefficients, each a separate draw of the caller's RNG; no draw without a hiding bound *)
+  Lemma flat_map_const_length {A B} (f : A -> list B) d : (forall a, length (f a) = d) ->
+    forall l, length (flat_map f l) = (length l * d)%nat.
+  Proof.
+    intros Hf. induction l as [|a l IH]; [reflexivity|]. cbn [flat_map length]. rewrite app_length, Hf, IH. lia.
+  Qed.
+  Lemma rand_poly_length nv d tape : length (rand_poly nv d tape) = rand_draws nv d.
+  Proof.
+    unfold rand_poly, rand_draws. cbn [length]. f_equal.
+    rewrite (flat_map_const_length _ d); [rewrite seq_length; reflexivity|].
+    intros a. rewrite map_length, seq_length. reflexivity.
+  Qed.
+  Lemma ph_commit1_draws nv s betas p hiding rng cm st n :
+    ph_commit1 nv s betas p hiding rng = Ok (cm, st, n) ->
+    match hiding, st with
+    | Some hb, Some blind => n = length blind /\ (1 <= nv -> hb + 2 <= n)%nat
+    | None, None => n = O
+    | _, _ => False
+    end.
+  Proof.
+    unfold ph_commit1. destruct (s <? mdeg p)%nat; [discriminate|]. destruct (negb (vars_ok nv p)); [discriminate|].
+    destruct hiding as [hb|].
+    - destruct rng as [tape|]; [|discriminate]. destruct (length tape <? _)%nat; [discriminate|].
+      destruct (hb =? 0)%nat; [discriminate|]. destruct (s + 1 <=? hb)%nat; [discriminate|].
+      intros H. injection H as _ <- <-. rewrite rand_poly_length. split; [reflexivity|]. unfold rand_draws. nia.
+    - intros H. injection H as _ <- <-. reflexivity.
+  Qed.
+
+  Lemma rand_poly_good nv d tape : wf_poly (rand_poly nv d tape) /\ poly_vars_in (seq 0 nv) (rand_poly nv d tape).
+  Proof.
+    unfold rand_poly. split.
+    - constructor; [cbn [snd]; split; constructor|].
+      apply Forall_forall. intros ct Hin. apply in_flat_map in Hin. destruct Hin as (var & _ & Hin).
+      apply in_map_iff in Hin. destruct Hin as (deg & <- & Hd). apply in_seq in Hd. cbn [snd]. split.
+      + cbn [map fst]. constructor; [intros []|constructor].
+      + constructor; [cbn [snd]; lia|constructor].
+    - constructor; [cbn [snd]; intros v []|].
+      apply Forall_forall. intros ct Hin. apply in_flat_map in Hin. destruct Hin as (var & Hv & Hin).
+      apply in_map_iff in Hin. destruct Hin as (deg & <- & Hd). cbn [snd]. intros v [<-|[]]. exact Hv.
+  Qed.
+  Lemma ph_commit1_good nv s betas p hiding rng cm st n :
+    wf_poly p -> poly_vars_in (seq 0 nv) p ->
+    ph_commit1 nv s betas p hiding rng = Ok (cm, st, n) -> good nv (p, st).
+  Proof.
+    intros Wp Vp. unfold ph_commit1, good. cbn [fst snd].
+    destruct (s <? mdeg p)%nat; [discriminate|]. destruct (negb (vars_ok nv p)); [discriminate|].
+    destruct hiding as [hb|].
+    - destruct rng as [tape|]; [|discriminate]. destruct (length tape <? _)%nat; [discriminate|].
+      destruct (hb =? 0)%nat; [discriminate|]. destruct (s + 1 <=? hb)%nat; [discriminate|].
+      intros H. injection H as _ <- _. repeat split; try assumption; apply rand_poly_good.
+    - intros H. injection H as _ <- _. repeat split; assumption.
+  Qed.
+
+  Lemma ph_commit1_no_rng nv s betas p hb :
+    (mdeg p <= s)%nat -> vars_ok nv p = true -> ph_commit1 nv s betas p (Some hb) None = Panic.
+  Proof.
+    intros Hd Hv. unfold ph_commit1.
+    destruct (Nat.ltb_spec s (mdeg p)) as [|_]; [exfalso; apply (Nat.lt_irrefl s); eapply Nat.lt_le_trans; eassumption|].
+    rewrite Hv. reflexivity.
   Qed.
 
   (* ---------------- one combined value per proof ---------------- *)
